@@ -147,6 +147,9 @@ def pCrcs (count : Nat) : P (List Nat) := fun bs =>
       | n + 1 => ofLE (d.take 4) :: go n (d.drop 4)
     .ok (go count data, rest)
 
+/-- `write_crcs(file, crcs)`: `write_uint32` per entry — 4 bytes little endian each -/
+def crcBytes (crcs : List Nat) : Bytes := crcs.flatMap (fun c => leBytes c 4)
+
 def pUtf16Name : P (List Nat) := fun bs =>
   match readUtf16 bs with
   | none => .error .malformed
